@@ -101,11 +101,19 @@ def finish(ctx, t0, explanation, seed=0, replay_only=None):
     opened, _fixed = load_known()
     my_open = opened.get(ctx.prop, {})
     viols = [o for o in ctx.obs if not o.ok]
-    new = [o for o in viols if o.key not in my_open]
-    known = [o for o in viols if o.key in my_open]
+    def base_key(k):
+        # the thorough tier repeats the rules on the no-default-features build and tags those
+        # obligations `cfgC`; a recorded finding is the same site in either build
+        return k.replace("|cfgC|", "|", 1)
+    new = [o for o in viols if base_key(o.key) not in my_open]
+    known = [o for o in viols if base_key(o.key) in my_open]
     os.makedirs(os.path.join(EVID, "replay"), exist_ok=True)
+    printed = set()
     for o in known:
-        print("KNOWN-FINDING: property=%s %s (%s)" % (ctx.prop, o.key, my_open[o.key]))
+        if base_key(o.key) in printed:
+            continue
+        printed.add(base_key(o.key))
+        print("KNOWN-FINDING: property=%s %s (%s)" % (ctx.prop, base_key(o.key), my_open[base_key(o.key)]))
     # one KNOWN-FINDING line per distinct key
     rc = 0
     seen = set()
